@@ -43,7 +43,7 @@ def check(v, tier, seed):
         f = os.path.join(wd, name + ".ndjson")
         e = dict(env or {})
         e["VERIF_RECORDS"] = f
-        rc, out = vlib.run(cmd + " > /dev/null", timeout=6000, env=e, mem_gb=None if name.startswith("tsan") else 24)
+        rc, out = vlib.run(cmd + " > /dev/null", timeout=900 if quick else 6000, env=e, mem_gb=None if name.startswith("tsan") else 24)
         if "WARNING: ThreadSanitizer" in out:
             site = re.search(r"#\d+ (draco::[^\s(]+)", out)
             v.violation({"what": "ThreadSanitizer reports a data race while independent encoders / decoders run concurrently", "site": site.group(1) if site else None,
